@@ -99,6 +99,12 @@ CHECKS = {
    design_ref="DESIGN.md section 6 C16",
    note=COMMON_NOTE + "Translated: Gen/WindowGen.v. That the observer's public state equals the members' is established on the implementation (the observer shares MessageProcessor::process_commit), not by a separate theorem. Defect F4 (window subtraction underflow) repaired (fix: c959fc8f).",
    technique="Coq proof over translated window arithmetic + admission model; observer-vs-member differential on generated histories"),
+ "C17": dict(
+   category="proof",
+   text="Coq theorems (Props/C17.v) over a model of check_that_subgroup_is_a_subset on the tree model (members = identities of the occupied leaves): for every pair of trees a re-initialized group is accepted exactly when it has the same members as the old one and a branch exactly when its members are among the old ones, independently of blank leaves; the parameter checks of join are exactly version, cipher suite, (re-init) group id, extensions and epoch 1; the rule as it was before the repair (tree node counts) refuses a legitimate re-init (witness). Frozen old group: C11_frozen_after_reinit. Tie / oracle: old groups with blank interior leaves; successor creation with equal / smaller / larger member set and a replaced identity, branch with equal / smaller / larger set: each verdict equals the model evaluated in Coq on the exported old tree; accepted groups are joined by exactly their members who share one epoch-1 state with the announced group id; parties without the old state, left-out members cannot join; the old group refuses every commit after the re-init.",
+   design_ref="DESIGN.md section 6 C17",
+   note=COMMON_NOTE + "Hand-modelled: Model/Subgroup.v. The cryptographic link (resumption PSK in the key schedule) is C13/C18 material; here it is exercised (intruders fail) but not restated as a theorem. Defect F5 repaired (fix: 5a692f47).",
+   technique="Coq proof (membership rule over tree model) + creation/join differential on trees with blanks"),
 }
 NOT_YET = {}
 props = [json.loads(l) for l in open(os.path.join(V, "properties.jsonl"))]
